@@ -498,11 +498,496 @@ def sec_contains_leaf(ck):
                 check_contains(ck, sp, x, controls=(j == 0), validate=(j < 3))
 
 
+# ===================================================================== Dict / Tuple contains
+def nested_configs(thorough):
+    f, i, b = jnp.float32, jnp.int32, jnp.bool_
+    z = zeros
+    cfgs = []
+    t1 = Tuple((Discrete(3), Box(jnp.zeros(2), jnp.ones(2))))
+    cfgs.append((t1, [(z((), i), z((2,), f)), (z((), f), z((2,), i)),
+                      (z((), i),), (z((), i), z((2,), f), z((), i)), [z((), i), z((2,), f)], z((2,), f), (z((2,), f), z((), i)),
+                      (z((1,), i), z((2,), f)), None, "ab"]))
+    d1 = Dict({"a": Discrete(2), "b": MultiDiscrete((2, 2))})
+    cfgs.append((d1, [OrderedDict(a=z((), i), b=z((2,), i)), OrderedDict(b=z((2,), f), a=z((), f)),
+                      OrderedDict(a=z((), i)), OrderedDict(a=z((), i), b=z((2,), i), c=z((), i)), OrderedDict(a=z((), i), c=z((2,), i)),
+                      OrderedDict(a=z((), i), b=z((3,), i)), (z((), i), z((2,), i)), z((3,), i), None]))
+    n1 = Tuple((Dict({"k": Box(0.0, 1.0), "m": MultiBinary(2)}), Discrete(2)))
+    cfgs.append((n1, [(OrderedDict(k=z((), f), m=z((2,), b)), z((), i)), (OrderedDict(k=z((), f), m=z((2,), f)), z((), f)),
+                      (OrderedDict(k=z((), f)), z((), i)), ((z((), f), z((2,), b)), z((), i))]))
+    n2 = Dict({"t": Tuple((Discrete(2), Box(0.0, 1.0))), "u": MultiBinary((2,))})
+    cfgs.append((n2, [OrderedDict(t=(z((), i), z((), f)), u=z((2,), i)), OrderedDict(t=(z((), i),), u=z((2,), i)),
+                      OrderedDict(t=[z((), i), z((), f)], u=z((2,), i))]))
+    if thorough:
+        t3 = Tuple((Discrete(2), MultiDiscrete((2, 3)), MultiBinary(2)))
+        cfgs.append((t3, [(z((), i), z((2,), i), z((2,), b)), (z((), f), z((2,), f), z((2,), f)), (z((), i), z((2,), i))]))
+        d3 = Dict({"x": Box(jnp.zeros(3), jnp.ones(3)), "y": Discrete(4), "z": Tuple((Discrete(2), Discrete(3)))})
+        cfgs.append((d3, [OrderedDict(x=z((3,), f), y=z((), i), z=(z((), i), z((), i))), OrderedDict(x=z((3,), i), y=z((), f), z=(z((), f), z((), i)))]))
+        n3 = Tuple((Tuple((Box(0.0, 1.0), Discrete(2))), Dict({"p": MultiDiscrete((2,)), "q": Box(jnp.zeros(2), jnp.ones(2))})))
+        cfgs.append((n3, [((z((), f), z((), i)), OrderedDict(p=z((1,), i), q=z((2,), f))), ((z((), f), z((), i)), OrderedDict(p=z((1,), f)))]))
+    return cfgs
+
+
+def sec_contains_nested(ck):
+    for sp, cands in nested_configs(ck.thorough):
+        for j, x in enumerate(cands):
+            with ck.section(f"contains {sp_label(sp)} {cand_label(x)}"):
+                check_contains(ck, sp, x, controls=(j == 0), validate=(j == 0))
+
+
+# ===================================================================== sample() / canonical() are members
+def sample_fn(sp, key):
+    with stubs.prng_stubs():
+        return sp.sample(key=key)
+
+
+def sample_mask_fn(sp, key, mask):
+    with stubs.prng_stubs():
+        return sp.sample(key=key, mask=mask)
+
+
+def box_leaves(sp, prefix="sp"):
+    """[(name prefix, Box)] of every Box inside sp, named as trace() names the leaves"""
+    if isinstance(sp, Box):
+        return [(prefix, sp)]
+    if isinstance(sp, Tuple):
+        return [b for i, s in enumerate(sp.spaces) for b in box_leaves(s, f"{prefix}_spaces_{i}")]
+    if isinstance(sp, Dict):
+        return [b for k, s in sp.spaces.items() for b in box_leaves(s, f"{prefix}_spaces_{k}")]
+    return []
+
+
+BOUNDEDNESS = ["bounded", "below", "above", "unbounded"]   # which of (low, high) are finite
+
+
+def apply_boundedness(S, name, pattern):
+    """replace the symbolic bounds of Box `name` by -inf / +inf according to `pattern` (one class per element);
+    returns the well-formedness assumption low <= high for the elements where both are finite"""
+    lo, hi = S[f"{name}_low"], S[f"{name}_high"]
+    wf = []
+    for n, idx in enumerate(np.ndindex(*lo.shape)):
+        c = pattern[n % len(pattern)]
+        if c in ("above", "unbounded"):
+            lo[idx] = -math.inf
+        if c in ("below", "unbounded"):
+            hi[idx] = math.inf
+        if c == "bounded":
+            wf.append(lo[idx] <= hi[idx])
+    return wf
+
+
+def r_between(e, lo, hi):
+    """REAL mode: lo <= e <= hi where a bound may be a concrete infinity and e a concrete NaN/inf"""
+    if isconc(e) and isinstance(e, float) and (e != e or math.isinf(e)):
+        if e != e:
+            return False
+        return (isconc(hi) and hi == e) if e > 0 else (isconc(lo) and lo == e)
+    cs = []
+    if isconc(lo) and isinstance(lo, float) and math.isinf(lo):
+        if lo > 0:
+            return False
+    else:
+        cs.append(_rz(lo) <= _rz(e))
+    if isconc(hi) and isinstance(hi, float) and math.isinf(hi):
+        if hi < 0:
+            return False
+    else:
+        cs.append(_rz(e) <= _rz(hi))
+    return conj(cs)
+
+
+def _rz(v):
+    if not isconc(v):
+        return z3.ToReal(v) if z3.is_int(v) else (z3.If(v, z3.RealVal(1), z3.RealVal(0)) if z3.is_bool(v) else v)
+    from fractions import Fraction
+    return z3.RealVal(Fraction(v)) if not isinstance(v, (bool, np.bool_)) else z3.RealVal(int(v))
+
+
+def r_member(sp, x, S, prefix="sp"):
+    """the statement's membership predicate in REAL mode (floats are reals; Box bounds may be concrete infinities)"""
+    if isinstance(sp, Tuple):
+        if not isinstance(x, tuple) or len(x) != len(sp.spaces):
+            return False
+        return conj([r_member(s, xi, S, f"{prefix}_spaces_{i}") for i, (s, xi) in enumerate(zip(sp.spaces, x))])
+    if isinstance(sp, Dict):
+        if not isinstance(x, dict) or set(x.keys()) != set(sp.spaces.keys()):
+            return False
+        return conj([r_member(s, x[k], S, f"{prefix}_spaces_{k}") for k, s in sp.spaces.items()])
+    if not isinstance(x, np.ndarray):
+        return False
+    if isinstance(sp, Box):
+        if x.shape != tuple(sp.low.shape):
+            return False
+        lo, hi = S[f"{prefix}_low"], S[f"{prefix}_high"]
+        return conj([r_between(x[i], lo[i], hi[i]) for i in np.ndindex(*x.shape)])
+    return z_member(sp, x, None)
+
+
+def out_tree(tr, out):
+    """outputs of a Traced as the pytree the function returned"""
+    leaves = [out[n] for n in tr.out_names]
+    struct_leaves, treedef = jax.tree_util.tree_flatten(tr.out_struct)
+    assert len(struct_leaves) == len(leaves)
+    return jax.tree_util.tree_unflatten(treedef, leaves)
+
+
+def run_with_model(fn, tr, S, res, uf_apps):
+    """the real lerax function on the model's inputs, random draws bound to the model's values"""
+    from jaxsmt.uf import world
+    keys = concrete.KeyBinding(res)
+    w = concrete.ModelWorld(res, uf_apps, keys)
+    vals = [concrete.model_leaf(res, S[n], av, keys) for n, av in zip(tr.in_names, tr.in_avals)]
+    args = concrete.rebuild_args(tr, vals)
+    with world(w):
+        out = fn(*args)
+        out = jax.block_until_ready(out)
+    return args, out, w
+
+
+def check_sample(ck, sp, patterns=(None,)):
+    fam = family(sp)
+    tr = trace(sample_fn, sp, jr.key(0), argnames=["sp", "key"], label=f"{fam}.sample")
+    tr._argnames = ["sp", "key"]
+    ck.encoded(tr)
+    concrete.validate(ck, tr, n=2, seed=ck.seed, label=f"{fam}.sample@{sp_label(sp)}")
+    boxes = box_leaves(sp)
+    for pat in patterns:
+        it = Interp()
+        S = tr.symbols(it)
+        wf = []
+        for name, _ in boxes:
+            wf += apply_boundedness(S, name, pat)
+        out = tr.run(it, S)
+        sample = out_tree(tr, out)
+        goal = r_member(sp, sample, S)
+        assume = wf + stubs.contracts(it)
+        cfg = sp_label(sp) + (f"|bounds={'/'.join(pat)}" if pat else "")
+
+        def rp(res, tr=tr, S=S, it=it):
+            (sp_c, _), smp, w = run_with_model(sample_fn, tr, S, res, it.uf_apps)
+            want = py_member(sp_c, smp)
+            got = sp_c.contains(smp)
+            return (not want), {"space": repr(sp_c), "sample": describe(smp), "member_by_statement": want, "real_contains": fl(got), "draws_bound": w.hits}
+        ck.prove(f"{fam}.sample_member@{cfg}", assume, goal, replay=rp, nonlinear=bool(boxes))
+    if boxes:
+        ck.witness(f"witness.{fam}.sample_assumptions@{sp_label(sp)}", assume)
+
+
+def check_discrete_mask(ck, n):
+    sp = Discrete(n)
+    tr = trace(sample_mask_fn, sp, jr.key(0), jnp.ones((n,), bool), argnames=["sp", "key", "mask"], label="Discrete.sample[mask]")
+    ck.encoded(tr)
+    it = Interp()
+    S = tr.symbols(it)
+    out = tr.run(it, S)
+    s = out[tr.out_names[0]]
+    m = list(S["mask"])
+    some = disj(m)
+    allowed = disj([z3.And(s[()] == i, m[i]) for i in range(n)])
+    goal = conj([z_member(sp, s), allowed])
+    assume = [some] + stubs.contracts(it)
+
+    def rp(res, tr=tr, S=S, it=it):
+        (sp_c, _, mask), smp, w = run_with_model(sample_mask_fn, tr, S, res, it.uf_apps)
+        mk = np.asarray(mask)
+        ok = py_member(sp_c, smp) and bool(mk[int(smp)])
+        return (not ok), {"space": repr(sp_c), "mask": mk.tolist(), "sample": fl(smp), "draws_bound": w.hits}
+    ck.prove(f"Discrete.sample_member@Discrete({n}),mask", assume, goal, replay=rp)
+    if n >= 2:
+        ck.witness(f"witness.Discrete.mask_excludes_something@Discrete({n})", assume + [neg(m[0])])
+        # negative control: a sampler that ignores the mask would be allowed to return a masked-out index
+        ck.control(f"control.Discrete.mask_ignored@Discrete({n})", [some, s[()] >= 0, s[()] < n], allowed)
+
+
+def canonical_fn(sp):
+    return sp.canonical()
+
+
+def check_canonical(ck, sp):
+    fam = family(sp)
+    tr = trace(canonical_fn, sp, argnames=["sp"], label=f"{fam}.canonical")
+    ck.encoded(tr)
+    boxes = box_leaves(sp)
+    it = fp_interp()
+    _BVOPS[0] = None
+    S = tr.symbols(it)
+    out = tr.run(it, S)
+    can = out_tree(tr, out)
+    assume = []
+    big = _fpv(BOX_ABS)
+    for name, _ in boxes:
+        for lo, hi in zip(S[f"{name}_low"].reshape(-1), S[f"{name}_high"].reshape(-1)):
+            assume += [z3.Not(z3.fpIsNaN(lo)), z3.Not(z3.fpIsNaN(hi)), z3.fpLEQ(lo, hi),
+                       z3.Not(z3.fpEQ(lo, z3.fpPlusInfinity(F32))), z3.Not(z3.fpEQ(hi, z3.fpMinusInfinity(F32))),
+                       z3.Or(z3.fpIsInf(lo), z3.fpLEQ(z3.fpAbs(lo), big)), z3.Or(z3.fpIsInf(hi), z3.fpLEQ(z3.fpAbs(hi), big)),
+                       z3.Not(z3.fpIsSubnormal(lo)), z3.Not(z3.fpIsSubnormal(hi))]
+    goal = z_member(sp, can, S)
+
+    def rp(res, tr=tr, S=S):
+        (sp_c,), _ = model_args(tr, S, res)
+        c = sp_c.canonical()
+        want = py_member(sp_c, c)
+        return (not want), {"space": repr(sp_c), "canonical": describe(c), "member_by_statement": want, "real_contains": fl(sp_c.contains(c))}
+    ck.prove(f"{fam}.canonical_member@{sp_label(sp)}", assume, goal, replay=rp, timeout=240 if ck.thorough else 60)
+    if boxes:
+        ck.witness(f"witness.{fam}.unbounded_box_allowed@{sp_label(sp)}", assume + [z3.fpIsInf(S[f"{boxes[0][0]}_low"].reshape(-1)[0]), z3.fpIsInf(S[f"{boxes[0][0]}_high"].reshape(-1)[0])])
+
+
+def member_spaces(thorough):
+    sps = [Discrete(1), Discrete(3), MultiDiscrete((3, 2)), MultiBinary(3), MultiBinary((2, 2)), Box(0.0, 1.0), Box(jnp.zeros(2), jnp.ones(2)),
+           Tuple((Discrete(2), Box(0.0, 1.0))), Dict({"a": MultiDiscrete((2, 2)), "b": MultiBinary(2)}),
+           Tuple((Dict({"k": Box(0.0, 1.0), "m": MultiBinary(2)}), Discrete(2)))]
+    if thorough:
+        sps += [Discrete(4), MultiDiscrete((4, 1, 2, 3)), MultiBinary((2, 1, 2)), Box(jnp.zeros((2, 2)), jnp.ones((2, 2))), Box(jnp.zeros(4), jnp.ones(4)),
+                Dict({"t": Tuple((Discrete(2), Box(0.0, 1.0))), "u": MultiBinary((2,)), "v": Box(jnp.zeros(2), jnp.ones(2))})]
+    return sps
+
+
+def patterns_for(sp, thorough):
+    n = sum(int(np.prod(b.low.shape)) for _, b in box_leaves(sp))
+    if n == 0:
+        return [None]
+    width = max(int(np.prod(b.low.shape)) for _, b in box_leaves(sp))
+    pats = [tuple(p) for p in itertools.product(BOUNDEDNESS, repeat=min(width, 2))]
+    if not thorough and width > 1:
+        # every class in every position, every class next to every other class at least once
+        pats = [p for k, p in enumerate(pats) if k % 3 == 0 or p[0] == p[1]]
+    return pats
+
+
+def sec_members(ck):
+    for sp in member_spaces(ck.thorough):
+        with ck.section(f"sample {sp_label(sp)}"):
+            check_sample(ck, sp, patterns_for(sp, ck.thorough))
+        with ck.section(f"canonical {sp_label(sp)}"):
+            check_canonical(ck, sp)
+    for n in ([1, 3] if not ck.thorough else [1, 2, 3, 4, 5]):
+        with ck.section(f"mask Discrete({n})"):
+            check_discrete_mask(ck, n)
+
+
+# ===================================================================== flatten_sample
+def flatten_fn(sp, x):
+    return sp.flatten_sample(x)
+
+
+def example_member(sp):
+    """an example value of the sample type (only its structure, shapes and dtypes matter)"""
+    return jax.tree_util.tree_map(lambda l: jnp.zeros(l.shape, l.dtype), sp.canonical())
+
+
+def check_flatten(ck, sp):
+    fam = family(sp)
+    x = example_member(sp)
+    tr = trace(flatten_fn, sp, x, argnames=["sp", "x"], label=f"{fam}.flatten_sample")
+    tr._argnames = ["sp", "x"]
+    ck.encoded(tr)
+    concrete.validate(ck, tr, n=2, seed=ck.seed, label=f"{fam}.flatten_sample@{sp_label(sp)}")
+    av = tr.out_avals[0] if len(tr.out_avals) == 1 else None
+    ok = av is not None and tuple(av.shape) == (sp.flat_size,)
+    ck.fact(f"{fam}.flatten_size@{sp_label(sp)}", ok, f"flatten_sample returns {[str(a) for a in tr.out_avals]}, flat_size={sp.flat_size}")
+    if not ok:
+        return
+    it = Interp()
+    S1 = tr.symbols(it, prefix="p_")
+    S2 = tr.symbols(it, prefix="q_")
+    for n in tr.in_names:
+        if n.startswith("sp"):
+            S2[n] = S1[n]                      # the same space
+    f1 = tr.run(it, S1)[tr.out_names[0]]
+    f2 = tr.run(it, S2)[tr.out_names[0]]
+    x1, x2 = tree_of(tr, S1, "x"), tree_of(tr, S2, "x")
+    names = [n for n in tr.in_names if n == "x" or n.startswith("x_")]
+    same_flat = conj([core.eq_elem(a, b) for a, b in zip(f1, f2)])
+    same_x = conj([core.eq_elem(a, b) for n in names for a, b in zip(S1[n].reshape(-1), S2[n].reshape(-1))])
+    assume = [r_member(sp, x1, S1), r_member(sp, x2, S2), same_flat]
+
+    def rp(res, tr=tr, S1=S1, S2=S2):
+        (sp_c, a), _ = model_args(tr, S1, res)
+        (_, b), _ = model_args(tr, S2, res)
+        fa, fb = np.asarray(sp_c.flatten_sample(a)), np.asarray(sp_c.flatten_sample(b))
+        la, lb = jax.tree_util.tree_leaves(a), jax.tree_util.tree_leaves(b)
+        differ = any(not np.array_equal(np.asarray(u), np.asarray(v)) for u, v in zip(la, lb))
+        return (differ and np.array_equal(fa, fb) and py_member(sp_c, a) and py_member(sp_c, b)), \
+            {"space": repr(sp_c), "sample_a": describe(a), "sample_b": describe(b), "flat_a": fa.tolist(), "flat_b": fb.tolist()}
+    ck.prove(f"{fam}.flatten_injective@{sp_label(sp)}", assume, same_x, replay=rp)
+    if sp.flat_size >= 2:
+        ck.witness(f"witness.{fam}.two_members_same_flat@{sp_label(sp)}", assume)
+        # negative control: the first flat_size-1 numbers alone do not determine the sample
+        part = [r_member(sp, x1, S1), r_member(sp, x2, S2), conj([core.eq_elem(a, b) for a, b in zip(f1[:-1], f2[:-1])])]
+        if not all(isinstance(s_, Discrete) and s_.n == 1 for s_ in [sp]):
+            ck.control(f"control.{fam}.prefix_determines_sample@{sp_label(sp)}", part, same_x)
+
+
+def sec_flatten(ck):
+    for sp in member_spaces(ck.thorough):
+        with ck.section(f"flatten {sp_label(sp)}"):
+            check_flatten(ck, sp)
+
+
+# ===================================================================== Box.__eq__ (Python bool computed from array comparisons: path-forking trace)
+def eq_fn(a, b):
+    return a == b
+
+
+def check_box_eq(ck, shape):
+    a, b = Box(jnp.zeros(shape), jnp.ones(shape)), Box(jnp.zeros(shape), jnp.ones(shape))
+    paths = explore(eq_fn, a, b, argnames=["a", "b"], label="Box.__eq__")
+    first = next(tr for _, tr, _ in paths if tr is not None)
+    ck.encoded(first)
+    it = fp_interp()
+    S = first.symbols(it)
+    bounds = [S[n] for n in ("a_low", "a_high", "b_low", "b_high")]
+    assume = [z3.Not(z3.fpIsNaN(e)) for arr in bounds for e in arr.reshape(-1)]
+    same = conj([z3.fpEQ(x, y) for p, q in (("a_low", "b_low"), ("a_high", "b_high")) for x, y in zip(S[p].reshape(-1), S[q].reshape(-1))])
+    goals, pcs = [], []
+    for dec, tr, exc in paths:
+        o = tr.run(it, S)
+        conds = [o[n][()] for n in tr.out_names][:len(dec)]
+        pc = conj([c if d else neg(c) for c, d in zip(conds, dec)])
+        pcs.append(pc)
+        if exc is not None:
+            goals.append(neg(pc))
+            continue
+        r = tr.out_static[0]
+        if not isinstance(r, bool):
+            goals.append(neg(pc))       # == must answer with a Python bool
+            continue
+        goals.append(implies(pc, same if r else neg(same)))
+
+    def rp(res, first=first, S=S):
+        (a_c, b_c), _ = model_args(first, S, res)
+        want = bool(np.array_equal(np.asarray(a_c.low), np.asarray(b_c.low)) and np.array_equal(np.asarray(a_c.high), np.asarray(b_c.high)))
+        got = a_c == b_c
+        return (got is not want), {"a": repr(a_c), "b": repr(b_c), "real_eq": repr(got), "equal_by_statement": want}
+    ck.prove(f"Box.eq_iff_same@Box{shape}", assume, conj([disj(pcs)] + goals), replay=rp)
+    ck.control(f"control.Box.eq_compares_low_only@Box{shape}", assume,
+               conj([implies(pc, conj([z3.fpEQ(x, y) for x, y in zip(S["a_low"].reshape(-1), S["b_low"].reshape(-1))]) if tr.out_static[0] else True)
+                     for pc, (dec, tr, exc) in zip(pcs, paths) if exc is None] +
+                    [implies(conj([z3.fpEQ(x, y) for x, y in zip(S["a_low"].reshape(-1), S["b_low"].reshape(-1))]),
+                             disj([pc for pc, (dec, tr, exc) in zip(pcs, paths) if exc is None and tr.out_static[0]]))]))
+    # boxes of different shape are unequal whatever their bounds (paths taken on a constant condition are infeasible)
+    other = Box(jnp.zeros(shape + (1,)), jnp.ones(shape + (1,)))
+    paths2 = explore(eq_fn, a, other, argnames=["a", "b"], label="Box.__eq__")
+    first2 = next(tr for _, tr, _ in paths2 if tr is not None)
+    it2 = fp_interp()
+    S2 = first2.symbols(it2)
+    goals2, pcs2 = [], []
+    for dec, tr, exc in paths2:
+        o = tr.run(it2, S2)
+        conds = [o[n][()] for n in tr.out_names][:len(dec)]
+        pc = conj([c if d else neg(c) for c, d in zip(conds, dec)])
+        pcs2.append(pc)
+        if exc is not None or tr.out_static[0] is not False:
+            goals2.append(neg(pc))
+
+    def rp2(res, first2=first2, S2=S2):
+        (a_c, b_c), _ = model_args(first2, S2, res)
+        got = a_c == b_c
+        return (got is not False), {"a": repr(a_c), "b": repr(b_c), "real_eq": repr(got), "equal_by_statement": False}
+    ck.prove(f"Box.eq_iff_same@Box{shape}_vs_Box{shape + (1,)}", [], conj([disj(pcs2)] + goals2), replay=rp2)
+    ck.fact(f"Box.eq_iff_same@Box{shape}_vs_other_kinds", (a == Discrete(2)) is False and (a == MultiBinary(2)) is False and (a == 0) is False,
+            "isinstance dispatch; no array values involved")
+
+
+def sec_box_eq(ck):
+    for shape in ([(), (2,)] if not ck.thorough else [(), (2,), (2, 2), (4,)]):
+        with ck.section(f"Box.__eq__ {shape}"):
+            check_box_eq(ck, shape)
+
+
+# ===================================================================== __eq__ / __hash__ by CrossHair
+def xhair_start(ck):
+    L, NH = (3, 5) if ck.thorough else (2, 3)
+    r = c14_xhair.Runner(os.environ.get("VERIF_SCRATCH", os.path.join(core.ROOT, ".scratch")), 240 if ck.thorough else 60, L=L, NH=NH)
+    r.start()
+    return r
+
+
+def xhair_collect(ck, r):
+    from concurrent.futures import ThreadPoolExecutor
+    names = list(c14_xhair.CONDITIONS)
+    with ThreadPoolExecutor(max_workers=8) as ex:
+        results = list(ex.map(r.collect, names))
+    for name, (verdict, info, dt) in zip(names, results):
+        oid = c14_xhair.CONDITIONS[name]
+        ob = ck._new(oid)
+        ob.solver = "crosshair (z3-backed symbolic execution of the Python source)"
+        ob.time = dt
+        ck.queries += 1
+        info["condition"] = name
+        info["contract"] = r.post_of(name)
+        if verdict == "confirmed":
+            ob.status = "unsat"
+            ob.detail = "Confirmed over all paths"
+        elif verdict == "counterexample":
+            ck._violation(ob, info, replay_info=info, reproduced=True)
+        else:
+            ob.status = "sat-unreproduced" if verdict == "unreproduced" else "unknown"
+            ob.detail = str(info)[:1500]
+            ck.inconclusive.append(ob)
+            ck.log(f"INCONCLUSIVE {oid}: crosshair verdict {verdict}: {ob.detail[:400]}")
+        if len(ck.samples) < 8 and verdict in ("confirmed", "counterexample") and name in ("tuple_eq", "dict_eq", "multidiscrete_hash"):
+            ck.samples.append({"obligation": oid, "kind": "crosshair", "status": ob.status, "contract": info["contract"], "output": info.get("crosshair_output")})
+    ck.bound(crosshair=r.bounds)
+    r.cleanup()
+
+
+# ===================================================================== foreign Python types (informational)
+def foreign_types_note(ck):
+    rows = []
+    spaces = [Discrete(3), MultiDiscrete((3, 2)), MultiBinary(2), Box(0.0, 1.0), Tuple((Discrete(2),)), Dict({"a": Discrete(2)})]
+    for sp in spaces:
+        for x in ["a", None, [[1], [1, 2]], {"a": 0}, object(), 1 + 2j]:
+            try:
+                r = sp.contains(x)
+                out = "rejected" if (np.shape(r) == () and not bool(r)) else f"returned {r!r}"
+            except Exception as ex:  # noqa: BLE001
+                out = f"raised {type(ex).__name__}"
+            if out != "rejected":
+                rows.append(f"{sp_label(sp)}.contains({x!r:.20}) {out}")
+    ck.notes.append("foreign Python types (fixed list, informational only, not part of the solver claim): " +
+                    ("all rejected with a scalar False" if not rows else "; ".join(rows)))
+    if rows:
+        ck.log("NOTE (informational, not an obligation): " + "; ".join(rows))
+
+
 def main():
     ck = Check("C14", "Spaces: exact membership, member samples, coherent equality")
     ck.mode = "FP32"
+    ck.bound(leaf_elements="<= 4 per leaf (quick) / <= 6 (thorough)", nesting_depth=2, arity="<= 3",
+             integer_candidates=f"|x| <= 2^24 (exactly representable in float32)",
+             box_bounds="symbolic float32 incl. +-inf for contains; canonical(): non-NaN, low <= high, low < +inf, high > -inf, finite bounds |b| <= 2^126; "
+                        "sample(): every combination of finite/infinite bound per element, finite bounds symbolic reals with low <= high",
+             mask="Discrete mask with at least one allowed index")
+    ck.stub(*stubs.STUB_NOTES)
+    ck.out("Box.__hash__ (bytes of concrete arrays): CrossHair cannot execute jnp/NumPy array code symbolically (it aborts inside JAX), so it is not claimed; Box.__eq__ IS claimed (path-forking trace)",
+           "Gymnasium round trip gym_space_to_lerax_space(lerax_to_gym_space(s)) == s and Dict key order: runs Gymnasium/NumPy C code on concrete values; CrossHair only realises the inputs (enumeration), so it is not claimed",
+           "float32 rounding and overflow inside Box.sample() (decided over the reals per boundedness class) and overflow of low+high in Box.canonical() (finite bounds limited to 2^126)",
+           "subnormal float32 values (XLA on CPU flushes them to zero): Box bounds in canonical() are zero, normal or infinite; contains is decided in IEEE semantics",
+           "statistical properties of sample() (uniformity, independence)",
+           "rejection of foreign Python types (str, None, ragged lists, plain dict): exercised on a fixed list and reported as a note only",
+           "whether a plain dict / a Dict with the same mapping in another key order is a member / equal: left open by the statement")
+    ck.assume_note("Box bounds are not NaN (contains needs no assumption on bounds at all)")
+    xr = None
+    with ck.section("crosshair start"):
+        xr = xhair_start(ck)
     sec_contains_leaf(ck)
-    ck.finish("...")
+    sec_contains_nested(ck)
+    sec_members(ck)
+    sec_flatten(ck)
+    sec_box_eq(ck)
+    with ck.section("foreign types"):
+        foreign_types_note(ck)
+    if xr is not None:
+        with ck.section("crosshair collect"):
+            xhair_collect(ck, xr)
+    ck.finish("contains of Box/Discrete/MultiDiscrete/MultiBinary and of nested Tuple/Dict spaces is traced once per Python branch decision (path forking on "
+              "bool(tracer)) and interpreted over z3 float32/integer/boolean terms with the candidate (incl. NaN, +-inf) and the Box bounds symbolic; on every "
+              "path the result must be a scalar boolean (read off the IR) equal to the membership predicate of the statement, written independently; "
+              "candidate dtype and shape classes are static configurations. sample() (PRNG draws = contract-constrained uninterpreted functions) and "
+              "canonical() must satisfy the same predicate; Discrete.sample must return an index the mask allows; flatten_sample has flat_size entries "
+              "(IR) and is injective on members (2-safety query). __eq__/__hash__ of Discrete/MultiDiscrete/MultiBinary/Tuple/Dict and nestings are decided "
+              "by CrossHair over symbolic sizes, arities and keys; Box.__eq__ by a path-forking trace. Counterexamples are re-run on the real classes.")
 
 
 if __name__ == "__main__":
